@@ -1553,6 +1553,55 @@ def run_tolinen_falsy_meta(ctx, i, rng):
               lambda: dict(case=desc, leaf_type=type(leaf).__name__, metadata=repr(md)[:200]))
 
 
+def run_tolinen_restored_without_init(ctx, i, rng):
+  """Applying a ToLinen module to restored variables in a process that never ran its init (the serving / evaluation flow): what
+  init registered as a side effect - the collection-name -> Variable-type links of RngKey / RngCount and of user Variable classes -
+  is forgotten (the registry entries are removed, as in a fresh interpreter) before apply is called."""
+  import jax
+  import jax.numpy as jnp
+  from flax import nnx
+  from flax.nnx import bridge, variablelib
+  with_rng = i % 2 == 0
+  custom = (i // 2) % 2 == 1
+  desc = dict(module_has_rng_state=with_rng, custom_variable_type_with_metadata=custom)
+  with ctx.case('tolinen.restored_without_init', i, desc, nontrivial=True):
+    class Tally(nnx.Variable):
+      pass
+
+    class Net(nnx.Module):
+      def __init__(self, rngs):
+        self.lin = nnx.Linear(3, 3, rngs=rngs)
+        self.drop = nnx.Dropout(0.5, rngs=rngs) if with_rng else None
+        self.t = Tally(jnp.zeros(()), note='kept') if custom else None
+
+      def __call__(self, x):
+        y = self.lin(x)
+        if self.t is not None:
+          y = y + self.t.value
+        return self.drop(y) if self.drop is not None else y
+
+    x = jnp.ones((2, 3))
+    before = dict(variablelib.VariableTypeCache)
+    lm = bridge.to_linen(Net)
+    rngs = {'params': jax.random.key(i), 'dropout': jax.random.key(50 + i)}
+    v = lm.init(rngs, x)
+    call_rngs = {'dropout': jax.random.key(99)} if with_rng else {}
+    want = lm.apply(v, x, rngs=call_rngs)
+    added = [k for k in variablelib.VariableTypeCache if k not in before]
+    for k in added:
+      variablelib.VariableTypeCache.pop(k)            # a process that never ran init
+    try:
+      got = lm.apply(v, x, rngs=call_rngs)
+      ctx.check(close(got, want), 'tolinen.restored_without_init:output', lambda: dict(case=desc))
+    except Exception as e:  # noqa: BLE001
+      ctx.check(False, 'tolinen.restored_without_init:apply_raises', dict(case=desc, forgotten=added, error=repr(e)[:300]))
+    finally:
+      for k in list(variablelib.VariableTypeCache):
+        if k not in before:
+          variablelib.VariableTypeCache.pop(k)
+    ctx.op('ToLinen.apply(variables restored in a fresh process)')
+
+
 def run_tonnx_custom_box(ctx, i, rng):
   """A Linen variable boxed in a user-defined AxisMetadata class (public ABC; no from_nnx_metadata): the wrapper keeps the box's own
   fields as Variable metadata and every call returns what Linen apply returns."""
@@ -1680,6 +1729,8 @@ def run(ctx):
     run_tolinen_reused(ctx, i, ctx.rng('tolinen.reused', i))
   for i in ctx.indices(4 if ctx.tier == 'quick' else 8, 'tolinen.lifted_sharding'):
     run_tolinen_lifted_sharding(ctx, i, ctx.rng('tolinen.lifted_sharding', i))
+  for i in ctx.indices(8 if ctx.tier == 'quick' else 16, 'tolinen.restored_without_init'):
+    run_tolinen_restored_without_init(ctx, i, ctx.rng('tolinen.restored_without_init', i))
   for i in ctx.indices(12 if ctx.tier == 'quick' else 36, 'tolinen.falsy_meta'):
     run_tolinen_falsy_meta(ctx, i, ctx.rng('tolinen.falsy_meta', i))
   for i in ctx.indices(30 if ctx.tier == 'quick' else 90, 'tolinen.hooked'):
